@@ -7,12 +7,14 @@ package hash
 //@   pure
 //@   ensures result.0 == "" && result.1 == nil                      [C06]
 
+// The once key is built from the Taskfile location and the task's local name.
 //@ func Name
-//@   trusted
-//@   pure
-//@   ensures result.0 == onceKey(arg0) && result.1 == nil           [C06]
+//@   pure allocates
+//@   site (*Task).LocalName#1 requires arg0 == t                                                    [C06]
+//@   ensures result.1 == nil                                                                        [C06]
 
+// The when_changed key hashes the whole compiled task with hashstructure's default options (order sensitive,
+// every exported field); what hashstructure covers is examined by the structural clause fields_hashed.
 //@ func Hash
-//@   trusted
-//@   pure
-//@   ensures result.0 == changedKey(arg0)                           [C06]
+//@   pure allocates
+//@   site v2.Hash#1 requires arg0 == box(type(*ast.Task), t) && arg2 == nil            [C06]
